@@ -97,7 +97,7 @@ fn main() {
         "E-ENUM. Octet alphabet O = {00 - . * 0 A Z [ \\ _ a z 7f 80 ff} (thorough) / {00 . @ A Z [ ` a z { 80 ff} (quick); labels = all strings over O of length 1..2 plus fill \
          labels of 62/63 octets; U1 = all absolute names of 0..2 labels over those labels; U2 = all names of 0..2 labels over \
          the 9-octet sub-alphabet {00 . A Z [ a z 80 ff} (quick: 7 octets {00 . A Z [ a ff}), absolute AND relative; UL = all names of 0..3 labels over {* *a a* ** a A b a.b 00 *x63}, absolute and relative; thorough adds U3 = 0..3 labels over {00 A [ a ff}. law family: on every name of U1, U2, UL: num_labels = labels - [first label is `*`], is_wildcard, is_root, iter/rev/len, len() = wire length - 1, to_lowercase, LowerName round trips and accessors, trim_to(k) for every k, base_name, into_wildcard; on every ordered pair of U2 and UL: eq_case, cmp_case (canonical order without folding), eq_ignore_root(_case), zone_of / zone_of_case / LowerName::zone_of = suffix relation. \
-         pair family: all ordered pairs of labels (Label eq/hash/cmp); ALL ordered pairs of U1 (Name eq/hash/cmp; thorough: all clauses), of U2 (all clauses incl. \
+         pair family: all ordered pairs of labels (Label eq/hash/cmp); ALL ordered pairs of U1 (Name eq/hash/cmp), of U2 (all clauses incl. \
          LowerName/RrKey eq/hash/cmp, absolute x relative) and of U3, oracle = vref::name (ASCII-folded label identity + flag; RFC 4034 \
          6.1 comparator via dense ranks); triple family: transitivity over all triples of a 1-label/2-label absolute+relative \
          universe. wire family: every name of U1 (+ names at 255 octets / 127 labels) x offsets {0,12,3ffe,3fff,4000} x \
@@ -121,11 +121,11 @@ fn main() {
     let full_labels = if thorough { labels_over(&OCTETS, true) } else { labels_over(&QUICK12, true) };
     pairs::run_label_pairs(&ctx, &full_labels);
     let u1 = pairs::universe(&ctx, fq(names_over(&full_labels, 2)));
-    pairs::run_pairs(&ctx, &u1, thorough, "u1_absolute_full_alphabet");
+    pairs::run_pairs(&ctx, &u1, false, false, "u1_absolute_full_alphabet");
 
     let sub_labels = if thorough { labels_over(&SUB9, true) } else { labels_over(&SUB7, true) };
     let u2 = pairs::universe(&ctx, both(names_over(&sub_labels, 2)));
-    pairs::run_pairs(&ctx, &u2, true, "u2_absolute_and_relative");
+    pairs::run_pairs(&ctx, &u2, true, true, "u2_absolute_and_relative");
     pairs::run_unary_laws(&ctx, &u2);
     pairs::run_unary_laws(&ctx, &u1);
     // UL: wildcard-shaped labels at every position, 0..3 labels, absolute and relative (the law
@@ -134,13 +134,13 @@ fn main() {
         b"*".to_vec(), b"*a".to_vec(), b"a*".to_vec(), b"**".to_vec(), b"a".to_vec(), b"A".to_vec(), b"b".to_vec(), b"a.b".to_vec(), vec![0x00], vec![b'*'; 63],
     ];
     let ul = pairs::universe(&ctx, both(names_over(&star_labels, 3)));
-    pairs::run_pairs(&ctx, &ul, true, "ul_wildcard_shapes");
+    pairs::run_pairs(&ctx, &ul, true, true, "ul_wildcard_shapes");
     pairs::run_unary_laws(&ctx, &ul);
 
     if thorough {
         let l5 = labels_over(&SUB5, true);
         let u3 = pairs::universe(&ctx, fq(names_over(&l5, 3)));
-        pairs::run_pairs(&ctx, &u3, true, "u3_three_labels");
+        pairs::run_pairs(&ctx, &u3, true, false, "u3_three_labels");
     }
 
     ctx.set("wall_after_pairs_s", json!(ctx.elapsed_s()));
